@@ -472,7 +472,7 @@ fn mutate(rng: &mut Rng, revs: &[String]) -> Vec<String> {
             // but physically present object of that list is looked up by a whole-file text search)
             let k = rng.below(ents.len() as u64) as usize;
             if let Some((num, _)) = parse_ent(&ents[k]) {
-                if num > 111 {
+                if num > 114 {
                     ents.remove(k);
                 }
             }
@@ -485,7 +485,32 @@ fn mutate(rng: &mut Rng, revs: &[String]) -> Vec<String> {
             }
         }
     }
+    let original = revs.clone();
     revs[i] = format!("{}:{}:{}", parts[0], parts[1], if ents.is_empty() { ".".into() } else { ents.join("+") });
+    // an object stream (transitively) stored inside itself makes the real reader's answers depend
+    // on the order of the questions (the cycle breaker caches Null); keep such plans out
+    let mut edges: Vec<(u32, u32)> = vec![];
+    for r in &revs {
+        let p: Vec<&str> = r.split(':').collect();
+        if p[2] != "." {
+            for e in p[2].split('+') {
+                if let Some((n, Ent::Comp { stm, .. })) = parse_ent(e) {
+                    edges.push((n, stm));
+                }
+            }
+        }
+    }
+    for &(start, _) in &edges {
+        let mut frontier = vec![start];
+        for _ in 0..edges.len() + 1 {
+            let next: Vec<u32> =
+                edges.iter().filter(|(a, _)| frontier.contains(a)).map(|(_, b)| *b).collect();
+            if next.contains(&start) {
+                return original;
+            }
+            frontier = next;
+        }
+    }
     revs
 }
 
